@@ -69,9 +69,28 @@ def plan_C02(b, tier, seed):
                   B_field(b, "bls12_381_fq12", s, 1500, 1800), B_field(b, "mnt6_753_fq3", s, 6000, 1800)]
     return t
 
-PLANS = {"C01": plan_C01, "C02": plan_C02}
+def A_bigint(b, nl, mode, workers=4):
+    return lambda: toy_replay(b, "bigint", "MC_BigInt", str(nl), mode, workers=workers, env_extra={"NL": str(nl)},
+                              label="A:bigint:N%d:%s" % (nl, mode))
+def B_bigint(b, nl, seed, n):
+    return lambda: trace_validate(b, "bigint", "Trace_BigInt", str(nl), seed, n, label="B:bigint:N%d:seed%d:n%d" % (nl, seed, n))
+
+def plan_C15(b, tier, seed):
+    t = []
+    if tier == "quick":
+        t += [A_bigint(b, 1, "arith"), A_bigint(b, 1, "unary"), A_bigint(b, 2, "arith"), A_bigint(b, 2, "unary"),
+              A_bigint(b, 4, "unary"), A_bigint(b, 13, "unary")]
+        t += [B_bigint(b, nl, seed, 3000) for nl in (1, 2, 3, 4, 6, 12, 13)]
+    else:
+        for nl in (1, 2, 3, 4, 6, 12, 13):
+            t += [A_bigint(b, nl, "arith", workers=8), A_bigint(b, nl, "unary", workers=8)]
+            t += [B_bigint(b, nl, seed + k, 30000) for k in range(3)]
+    return t
+
+PLANS = {"C01": plan_C01, "C02": plan_C02, "C15": plan_C15}
 
 RULES = {
+ "C15": "A: BigIntMachine over the limb-boundary alphabet (NL<=2: all limb combinations from {0,1,2,2^31,2^63-1,2^63,2^64-2,2^64-1}; larger NL: one special limb, others 0 or all-ones): all ordered pairs x binary operations, every value x unary operations / shifts {0,1,63,64,65,127,128,64N-1,64N,64N+1,64N+64} / conversions / w-NAF for w in {0,1,2,3,4,5,8,16,20,64}; every transition replayed on ark_ff::BigInt<N> through every API variant. B: seeded boundary-biased programs for N in {1,2,3,4,6,12,13} validated by TLC (relaxed NAF as a relation). non-trivial = register changed or a non-zero/true flag or value returned",
  "C01": "A: every transition of FieldMachine over the listed toy prime fields (all operand tuples x all actions; both the derive-macro and the hand-written trait-default configuration) replayed through every API variant; B: seeded random+boundary programs on shipped fields and the moduli zoo validated by TLC over BigNat. non-trivial = result differs from the operands and from 0/1, counted per distinct (operands, event)",
  "C02": "A: every transition of FieldMachine over toy towers (all elements, or the <=2-nonzero-coordinate sub-alphabet for towers with >3000 elements); B: seeded programs on the shipped BLS12-381 Fq2/Fq6/Fq12 and MNT6 Fq3 validated against schoolbook tower arithmetic over BigNat; Frobenius checked against x^(p^k)",
 }
@@ -79,6 +98,8 @@ RULES = {
 HOOK_COMMITS = []
 NOT_APPLICABLE = {}
 META = {
+ "C15": {"text": "BigIntMachine defines every BigInteger operation on arbitrary-precision naturals modulo 2^(64N) with exact carry/borrow flags, and the (w-)NAF as the unique recoding computed on unbounded integers (TLC checks that it satisfies the digit constraints and reconstructs, in every explored state). TLC explores the machine exhaustively over the limb-boundary alphabet and every transition is replayed on the real BigInt<N>; random+boundary traces are validated in the other direction.",
+         "note": "Operands are boundary-exhaustive + sampled, not all of 2^(64N). Window sizes above 20 are not modelled (digits must fit TLC integers). doc(hidden) const helpers (const_num_bits, two_adic_valuation) are only used inside their documented preconditions."},
  "C01": {"text": "TLC explores FieldMachine over toy prime fields exhaustively (every operand tuple, every action) and checks the field axioms on the specification's own definitions; every explored transition is replayed on the real ark-ff code (derive-macro and hand-written trait-default configurations, every API variant). For full-size moduli (shipped fields and a zoo of 1..13-limb primes with/without spare bit, no-carry-eligible or not, Mersenne, Goldilocks, 2^255-19) seeded random and boundary programs are recorded from the real code and validated by TLC as behaviours of the same machine over arbitrary-precision naturals; raw Montgomery limbs are decoded by the specification and must be canonical.",
          "note": "Exhaustive only for moduli < 2^14; full-size configurations are sampled (boundary alphabet + random). Trusted: TLC, the BigNat/Tower Java accelerators after their self-tests, the harness's construction of raw Montgomery limbs with num-bigint."},
  "C02": {"text": "Same machine instantiated over towers: TLC checks the tower axioms (ring laws, Frobenius = p-power homomorphism of the right period, multiplicative norm, Euler criterion = existence of a root) on toy towers Fp2/Fp3/Fp4/Fp6 (both)/Fp12 and emits every transition over all elements (or the <=2-nonzero-coordinate alphabet for towers above 3000 elements); all are replayed on the real templates. BLS12-381 Fq2/Fq6/Fq12 and MNT6 Fq3 traces are validated against schoolbook arithmetic modulo the binomials over BigNat, Frobenius against x^(p^k).",
